@@ -1070,45 +1070,20 @@ Proof.
 Qed.
 
 (** ** the commit text: which tree and parents the reader finds *)
-Lemma drop_cr_prefix : forall p s, p <> [] -> last p x00 <> c_cr -> exists s', drop_cr (p ++ s) = p ++ s'.
-Proof.
-  intros p s Hne Hlast. unfold drop_cr. destruct (rev (p ++ s)) as [|c l] eqn:E; [exists s; reflexivity|].
-  destruct (beqb c c_cr) eqn:Ec; [|exists s; reflexivity].
-  apply beqb_eq in Ec. subst c.
-  assert (Hps : p ++ s = rev l ++ [c_cr]).
-  { rewrite <- (rev_involutive (p ++ s)), E. reflexivity. }
-  destruct s as [|y s1].
-  - exfalso. rewrite app_nil_r in Hps. rewrite Hps, last_last in Hlast. apply Hlast. reflexivity.
-  - destruct (@exists_last _ (y :: s1)) as (s0 & x & Hs); [discriminate|]. rewrite Hs in *.
-    rewrite app_assoc in Hps. apply app_inj_tail in Hps. destruct Hps as [Hps _].
-    exists s0. rewrite <- Hps. reflexivity.
-Qed.
-
 Lemma tail_headers : forall a cm rest c0 c' r,
   ~ In c_nl a -> ~ In c_nl cm ->
-  parse_headers (scan_lines (str "author "%string ++ a ++ [c_nl] ++ str "committer "%string ++ cm ++ [c_nl] ++ [c_nl] ++ rest)) c0
+  parse_headers (lf_lines (str "author "%string ++ a ++ [c_nl] ++ str "committer "%string ++ cm ++ [c_nl] ++ [c_nl] ++ rest)) c0
     = Some (c', r) ->
   c_tree c' = c_tree c0 /\ c_parents c' = c_parents c0.
 Proof.
   intros a cm rest c0 c' r Ha Hc H.
-  replace (str "author "%string ++ a ++ [c_nl] ++ str "committer "%string ++ cm ++ [c_nl] ++ [c_nl] ++ rest)
-    with ((str "author "%string ++ a) ++ c_nl :: (str "committer "%string ++ cm) ++ c_nl :: c_nl :: rest) in H
-    by (rewrite <- !app_assoc; reflexivity).
-  unfold scan_lines in H.
-  rewrite scan_lines_aux_app_nl in H
-    by (apply notin_app; [reflexivity | exact Ha]).
-  rewrite scan_lines_aux_app_nl in H
-    by (apply notin_app; [reflexivity | exact Hc]).
-  change (scan_lines_aux [] (c_nl :: rest)) with ([] :: scan_lines_aux [] rest) in H.
-  change (rev (@nil byte)) with (@nil byte) in H. rewrite !app_nil_l in H.
-  destruct (drop_cr_prefix (str "author "%string) a) as [a' Ea];
-    [discriminate | intro X; vm_compute in X; discriminate X |].
-  destruct (drop_cr_prefix (str "committer "%string) cm) as [cm' Ec];
-    [discriminate | intro X; vm_compute in X; discriminate X |].
-  rewrite Ea, Ec in H. rewrite parse_headers_author in H.
-  destruct (read_sign a') as [sa|]; [|discriminate H].
+  rewrite (lf_sign_line (str "author "%string) a _ eq_refl Ha) in H.
+  rewrite (lf_sign_line (str "committer "%string) cm _ eq_refl Hc) in H.
+  change ([c_nl] ++ rest) with (c_nl :: rest) in H. rewrite lf_lines_nl in H.
+  rewrite parse_headers_author in H.
+  destruct (read_sign a) as [sa|]; [|discriminate H].
   rewrite parse_headers_committer in H.
-  destruct (read_sign cm') as [sc|]; [|discriminate H].
+  destruct (read_sign cm) as [sc|]; [|discriminate H].
   rewrite parse_headers_blank in H. injection H as <- _. split; reflexivity.
 Qed.
 
@@ -1119,15 +1094,15 @@ Lemma commit_text_parse : forall tree parent a cm msg c,
   c_tree c = tree /\ c_parents c = parent_list parent.
 Proof.
   intros tree parent a cm msg c Ha Hc Htree Hparent H. unfold parse_commit in H.
-  destruct (parse_headers (scan_lines (commit_text tree (option_map hex parent) a cm msg))
+  destruct (parse_headers (lf_lines (commit_text tree (option_map hex parent) a cm msg))
               (mkCommit [] [] None None [])) as [[c1 ml]|] eqn:E; [|discriminate H].
   injection H as <-. cbn [c_tree c_parents]. unfold commit_text in E.
-  rewrite (scan_hex_line (str "tree "%string) tree _ eq_refl eq_refl) in E.
+  rewrite (lf_hex_line (str "tree "%string) tree _ eq_refl) in E.
   rewrite parse_headers_tree, (read_hash_hex tree Htree) in E.
   cbn [c_tree c_parents c_author c_committer c_msg] in E.
   destruct parent as [p|]; cbn [option_map parent_list] in *.
   - rewrite <- !app_assoc in E.
-    rewrite (scan_hex_line (str "parent "%string) p _ eq_refl eq_refl) in E.
+    rewrite (lf_hex_line (str "parent "%string) p _ eq_refl) in E.
     rewrite parse_headers_parent, (read_hash_hex p (Hparent p eq_refl)) in E.
     cbn [c_tree c_parents c_author c_committer c_msg] in E.
     apply tail_headers in E; [|assumption|assumption]. exact E.
